@@ -344,7 +344,66 @@ def t_extracttail(fn):
     return [new, helper]
 
 
-MODES = {"retbool": t_retbool, "extracttail": t_extracttail, "inlinetmp": t_inlinetmp, "augexpand": t_augexpand, "elsify": t_elsify, "kwargify": t_kwargify, "rename": t_rename, "ifswap": t_ifswap, "cmpflip": t_cmpflip, "rettemp": t_rettemp}
+def t_unternary(fn):
+    """`x = a if c else b` -> if/else statement; `return a if c else b` -> if c: return a / return b"""
+    hit = [0]
+
+    class R(ast.NodeTransformer):
+        def visit_Assign(self, n):
+            if isinstance(n.value, ast.IfExp) and len(n.targets) == 1 and isinstance(n.targets[0], ast.Name):
+                hit[0] += 1
+                v = n.value
+                return ast.copy_location(ast.If(test=v.test, body=[ast.Assign(targets=[copy.deepcopy(n.targets[0])], value=v.body)],
+                                                orelse=[ast.Assign(targets=[copy.deepcopy(n.targets[0])], value=v.orelse)]), n)
+            return n
+
+        def visit_Return(self, n):
+            if isinstance(n.value, ast.IfExp):
+                hit[0] += 1
+                v = n.value
+                return [ast.copy_location(ast.If(test=v.test, body=[ast.Return(value=v.body)], orelse=[]), n), ast.copy_location(ast.Return(value=v.orelse), n)]
+            return n
+    new = R().visit(copy.deepcopy(fn))
+    return new if hit[0] else None
+
+
+def t_inset(fn):
+    """`x in (A, B)` / `x in {A, B}` -> `x == A or x == B` (x a plain name, members names or constants); `not in` likewise"""
+    hit = [0]
+
+    class R(ast.NodeTransformer):
+        def visit_Compare(self, n):
+            self.generic_visit(n)
+            if len(n.ops) == 1 and isinstance(n.ops[0], (ast.In, ast.NotIn)) and isinstance(n.left, ast.Name) \
+                    and isinstance(n.comparators[0], (ast.Tuple, ast.Set)) and 1 < len(n.comparators[0].elts) <= 3 \
+                    and all(isinstance(e, (ast.Name, ast.Constant)) for e in n.comparators[0].elts):
+                hit[0] += 1
+                neg = isinstance(n.ops[0], ast.NotIn)
+                parts = [ast.Compare(left=copy.deepcopy(n.left), ops=[ast.NotEq() if neg else ast.Eq()], comparators=[e]) for e in n.comparators[0].elts]
+                return ast.copy_location(ast.BoolOp(op=ast.And() if neg else ast.Or(), values=parts), n)
+            return n
+    new = R().visit(copy.deepcopy(fn))
+    return new if hit[0] else None
+
+
+def t_chaincmp(fn):
+    """`a <= b <= c` -> `a <= b and b <= c` (b a plain name or constant)"""
+    hit = [0]
+
+    class R(ast.NodeTransformer):
+        def visit_Compare(self, n):
+            self.generic_visit(n)
+            if len(n.ops) == 2 and isinstance(n.comparators[0], (ast.Name, ast.Constant)):
+                hit[0] += 1
+                a = ast.Compare(left=n.left, ops=[n.ops[0]], comparators=[n.comparators[0]])
+                b = ast.Compare(left=copy.deepcopy(n.comparators[0]), ops=[n.ops[1]], comparators=[n.comparators[1]])
+                return ast.copy_location(ast.BoolOp(op=ast.And(), values=[a, b]), n)
+            return n
+    new = R().visit(copy.deepcopy(fn))
+    return new if hit[0] else None
+
+
+MODES = {"unternary": t_unternary, "inset": t_inset, "chaincmp": t_chaincmp, "retbool": t_retbool, "extracttail": t_extracttail, "inlinetmp": t_inlinetmp, "augexpand": t_augexpand, "elsify": t_elsify, "kwargify": t_kwargify, "rename": t_rename, "ifswap": t_ifswap, "cmpflip": t_cmpflip, "rettemp": t_rettemp}
 
 
 def splice(src, fn, new):
